@@ -24,6 +24,23 @@ LIB_SRC = ["erasurecode.c", "erasurecode_helpers.c", "erasurecode_preprocessing.
            "backends/isa-l/isa_l_rs_cauchy.c", "backends/rs_vand/liberasurecode_rs_vand.c",
            "builtin/rs_vand/rs_galois.c", "backends/shss/shss.c", "backends/phazrio/libphazr.c"]
 
+
+
+def am_sources(rel, var, fallback):
+    """Source list of an automake target, read from the tree under test (so that a refactoring that adds, splits or
+    renames source files and updates Makefile.am is built as the maintainer builds it); the pinned list otherwise."""
+    try:
+        txt = open(os.path.join(REPO, "src", rel, "Makefile.am")).read().replace("\\\n", " ")
+        m = re.search(r"^%s\s*=\s*(.*)$" % re.escape(var), txt, re.M)
+        names = [w for w in m.group(1).split() if w.endswith(".c")]
+        base = os.path.join(REPO, "src", rel)
+        if names and all(os.path.isfile(os.path.join(base, n)) for n in names):
+            return [os.path.normpath(os.path.join(rel, n)) for n in names]
+    except Exception:
+        pass
+    return fallback
+
+
 VARIANTS = {
     # name: (compiler flags, use ledger, sse)
     "asan":  ("-g -O1 -fno-omit-frame-pointer -fsanitize=address,undefined "
@@ -61,7 +78,7 @@ def _tree_hash(paths, extra=""):
             files = []
             for d, _, fs in os.walk(root):
                 for f in fs:
-                    if f.endswith((".c", ".h", ".inc", ".sh")):
+                    if f.endswith((".c", ".h", ".inc", ".sh", ".am")):
                         files.append(os.path.join(d, f))
         for f in sorted(files):
             h.update(f.encode())
@@ -115,11 +132,11 @@ def build(variant, extra_defs=""):
     cmds.append("%s -O2 -fPIC -shared -o %s/libisal.so.2 %s/refisal.c" % (cc, tmp, HARNESS))
     s = lambda names: " ".join("%s/src/%s" % (R, n) for n in names)
     cmds.append("%s %s %s -shared -o %s/libXorcode.so.1 %s %s" % (
-        cc, cf, red, tmp, s(["builtin/xor_codes/xor_code.c", "builtin/xor_codes/xor_hd_code.c"]), L))
+        cc, cf, red, tmp, s(am_sources("builtin/xor_codes", "libXorcode_la_SOURCES", ["builtin/xor_codes/xor_code.c", "builtin/xor_codes/xor_hd_code.c"])), L))
     cmds.append("%s %s %s -shared -o %s/libnullcode.so.1 %s %s" % (
-        cc, cf, red, tmp, s(["builtin/null_code/null_code.c"]), L))
+        cc, cf, red, tmp, s(am_sources("builtin/null_code", "libnullcode_la_SOURCES", ["builtin/null_code/null_code.c"])), L))
     cmds.append("%s %s %s -shared -o %s/liberasurecode_rs_vand.so.1 %s %s" % (
-        cc, cf, red, tmp, s(["builtin/rs_vand/rs_galois.c", "builtin/rs_vand/liberasurecode_rs_vand.c"]), L))
+        cc, cf, red, tmp, s(am_sources("builtin/rs_vand", "liberasurecode_rs_vand_la_SOURCES", ["builtin/rs_vand/rs_galois.c", "builtin/rs_vand/liberasurecode_rs_vand.c"])), L))
     # independent ones in parallel
     procs = [subprocess.Popen(c, shell=True, stdout=subprocess.PIPE, stderr=subprocess.STDOUT, text=True)
              for c in cmds[:2]]
@@ -136,7 +153,7 @@ def build(variant, extra_defs=""):
     # main library: compile objects in parallel
     objs = []
     procs = []
-    for n in LIB_SRC:
+    for n in am_sources("", "liberasurecode_la_SOURCES", LIB_SRC):
         o = os.path.join(tmp, n.replace("/", "_") + ".o")
         objs.append(o)
         c = "%s %s %s -c -o %s %s/src/%s" % (cc, cf, red, o, R, n)
@@ -215,7 +232,7 @@ def tlc(module, cfg=None, workers=None, timeout=900, env=None, extra="", simulat
     cfgp = os.path.join(SPEC, (cfg or module) + ".cfg")
     w = workers or NCPU
     cmd = ["timeout", str(timeout), "java", "-XX:+UseParallelGC", "-Xmx" + heap, "-Xss16m",
-           "-cp", TLC_JAR, "tlc2.TLC", "-workers", str(w), "-metadir", md, "-config", cfgp]
+           "-cp", TLC_JAR, "tlc2.TLC", "-workers", str(w), "-noGenerateSpecTE", "-metadir", md, "-config", cfgp]
     if not deadlock:
         cmd.append("-deadlock")
     if simulate:
@@ -328,6 +345,11 @@ class Check:
         if not ev["coverage"]["samples"]:
             ev["coverage"]["samples"] = ["(none recorded)"]
         json.dump(ev, open(os.path.join(EVID, self.prop + ".json"), "w"), indent=1)
+        if rc == 0 and not os.environ.get("VERIF_KEEP_WORK") and os.path.isdir(WORK):
+            # event files of a passing run are not needed again (thorough tiers write gigabytes)
+            for n in os.listdir(WORK):
+                if n == self.prop or n.startswith(self.prop + "-"):
+                    shutil.rmtree(os.path.join(WORK, n), ignore_errors=True)
         return rc
 
 
@@ -447,7 +469,7 @@ def validate(module, files, cfg=None, env=None, timeout=1500, max_lines=60000, n
         if env:
             e.update({k: str(x) for k, x in env.items()})
         cmd = ["timeout", str(timeout), "java", "-XX:+UseSerialGC", "-Xmx3g", "-Xss32m", "-cp", TLC_JAR, "tlc2.TLC",
-               "-workers", "1", "-metadir", md, "-config", cfgp, os.path.join(SPEC, module + ".tla")]
+               "-workers", "1", "-noGenerateSpecTE", "-metadir", md, "-config", cfgp, os.path.join(SPEC, module + ".tla")]
         return (subprocess.Popen(cmd, cwd=SPEC, env=e, stdout=subprocess.PIPE, stderr=subprocess.STDOUT, text=True), sh_, md)
 
     while pending or running:
